@@ -218,6 +218,11 @@ def elems : Str → List PElem
   | [] => []
   | c :: cs => (if c == '*' then .star else if c == '^' then .sep else .lit c) :: elems cs
 
+/-- `.*` followed by the continuation `k`: `k` is tried at every suffix, leftmost first -/
+def starLoop (k : Str → Bool) : Str → Bool
+  | [] => k []
+  | c :: s' => k (c :: s') || starLoop k s'
+
 /-- does `ps` match a prefix of `s` (all of `s` when `toEnd`)? -/
 def matchHere (toEnd : Bool) : List PElem → Str → Bool
   | [], s => !toEnd || s.isEmpty
@@ -227,9 +232,7 @@ def matchHere (toEnd : Bool) : List PElem → Str → Bool
   | .sep :: ps, s => match s with
       | d :: s' => isSepChar d && matchHere toEnd ps s'
       | [] => ps.isEmpty
-  | .star :: ps, [] => matchHere toEnd ps []
-  | .star :: ps, c :: s' => matchHere toEnd ps (c :: s') || matchHere toEnd (.star :: ps) s'
-termination_by ps s => (ps.length, s.length)
+  | .star :: ps, s => starLoop (matchHere toEnd ps) s
 
 def matchAnywhere (toEnd : Bool) (ps : List PElem) : Str → Bool
   | [] => matchHere toEnd ps []
